@@ -106,6 +106,7 @@ func (vm *VM) PushCallFrame(callFrame *CallFrame) {
 	vm.csCount += 1
 	vm.csModuleID = callFrame.module.GetID()
 	vm.initValueStack(vm.csModuleID)
+	verifEvent(vm, "push", "", int(callFrame.callType))
 }
 
 func (vm *VM) PopCallFrame() {
@@ -117,6 +118,7 @@ func (vm *VM) PopCallFrame() {
 	} else {
 		vm.csModuleID = vm.callStack[vm.csCount-1].module.GetID()
 	}
+	verifEvent(vm, "pop", "", 0)
 }
 
 func (vm *VM) GetCallStack() []*CallFrame {
@@ -152,6 +154,7 @@ func (vm *VM) SetReturnValue(value Element) {
 	if callFrame != nil {
 		callFrame.returnValue = value
 	}
+	verifEvent(vm, "ret", "", 0)
 }
 
 func (vm *VM) BeginScope() {
@@ -159,6 +162,7 @@ func (vm *VM) BeginScope() {
 	if scope != nil {
 		scope.BeginScope()
 	}
+	verifEvent(vm, "begin", "", 0)
 }
 
 // EndScope - end current scope
@@ -167,6 +171,7 @@ func (vm *VM) EndScope() {
 	if scope != nil {
 		scope.EndScope()
 	}
+	verifEvent(vm, "end", "", 0)
 }
 
 // SetCurrentLine
@@ -175,6 +180,7 @@ func (vm *VM) SetCurrentLine(line int) {
 	if frame != nil {
 		frame.SetCurrentLine(line)
 	}
+	verifEvent(vm, "line", "", line)
 }
 
 func (vm *VM) FindElement(name *IDName) (Element, error) {
